@@ -19,7 +19,7 @@ TreeFails(c, tr) ==
       reach == ReachFrom(par, rootsq)
       tsites == SitesIn(T, d.left, d.right)
   IN {cl \in {"interval", "parent", "edge", "ns", "nt", "num_edges", "roots", "linked", "sites", "muts", "samples",
-              "mrca", "depth", "bl", "tbl", "isdesc", "nlin", "pre", "post", "in", "level", "tasc", "tdesc", "minlex",
+              "mrca", "mrca_multi", "depth", "bl", "tbl", "isdesc", "nlin", "pre", "post", "in", "level", "tasc", "tdesc", "minlex",
               "leaves", "subpre", "subpost", "numroots", "mut_edges", "sackin", "colless", "b1", "path_length", "num_children",
               "distance_between", "ancestors", "siblings", "is_isolated", "parent_dict", "samples_virtual_root"} :
      ~ CASE cl = "interval" -> tr.left = d.left /\ tr.right = d.right /\ tr.index \in 0..(NumTrees(T) - 1)
@@ -67,6 +67,10 @@ TreeFails(c, tr) ==
          [] cl = "samples" -> \A u \in NodesOf(T) : /\ ToSet(tr.samples[u + 1]) = Desc(par, u) \cap SamplesOf(T)
                                                    /\ Len(tr.samples[u + 1]) = Cardinality(Desc(par, u) \cap SamplesOf(T))
          [] cl = "mrca" -> \A u, v \in NodesOf(T) : tr.mrca[u + 1][v + 1] = MRCAIn(par, u, v)
+         [] cl = "mrca_multi" -> \A i \in 1..Len(tr.mrcan) :
+                                    LET m == MRCASet(par, ToSet(tr.mrcan[i][1])) IN
+                                    /\ tr.mrcan[i][2] = m
+                                    /\ tr.mrcan[i][3] = (IF m = NULL THEN -1 ELSE TimeOf(T, m))
          [] cl = "depth" -> \A u \in NodesOf(T) : tr.depth[u + 1] = DepthOf(par, u)
          [] cl = "bl" -> \A u \in NodesOf(T) : tr.bl[u + 1] = BranchLen(T, par, u)
          [] cl = "tbl" -> tr.tbl = TotalBranchLen(T, par, d.roots)
